@@ -44,7 +44,7 @@ def load_decoders(ctx):
 
 
 MIN_HITS = {
-    'quick': {"request": 1458323, "prefix": 253373, "extreme_len": 965041, "short": 55738, "decoders_seen": 736},
+    'quick': {"request": 1458655, "prefix": 253223, "extreme_len": 965734, "short": 55184, "decoders_seen": 736},
     'thorough': {"request": 13389670, "prefix": 1170451, "extreme_len": 4958361, "short": 506995, "decoders_seen": 1766},
 }
 
